@@ -362,6 +362,8 @@ class Engine:
             return False
         if self._merge_loop(it, node, env):
             return True
+        if self._search_loop(it, node, env):
+            return True
         stmt, tests = node.body[0], []
         if isinstance(stmt, ast.If) and not stmt.orelse and len(stmt.body) == 1:
             tests, stmt = [stmt.test], stmt.body[0]
@@ -396,6 +398,25 @@ class Engine:
                     dc["result"] = target
             return True
         return False
+
+    def _search_loop(self, it: Interp, node: ast.For, env: Env) -> bool:
+        """`for x in S: if c(x): return [v]` (nothing else in the loop, v not depending on x) is `if any(c(x) for x in S):
+        return [v]` - the explicit form of the `any(...)` test, summarised the same way."""
+        stmt = node.body[0]
+        if not (isinstance(stmt, ast.If) and not stmt.orelse and len(stmt.body) == 1 and isinstance(stmt.body[0], ast.Return)):
+            return False
+        targets = {n.id for n in ast.walk(node.target) if isinstance(n, ast.Name)}
+        ret = stmt.body[0]
+        if ret.value is not None and any(isinstance(n, ast.Name) and n.id in targets for n in ast.walk(ret.value)):
+            return False
+        if any(isinstance(n, (ast.Await, ast.Yield, ast.YieldFrom, ast.NamedExpr)) for n in ast.walk(stmt.test)):
+            return False
+        gen = ast.comprehension(target=node.target, iter=node.iter, ifs=[], is_async=0)
+        test = ast.Call(func=ast.Name(id="any", ctx=ast.Load()), args=[ast.GeneratorExp(elt=stmt.test, generators=[gen])], keywords=[])
+        new = ast.copy_location(ast.If(test=test, body=[ret], orelse=[]), node)
+        ast.fix_missing_locations(new)
+        it.exec_block([new], env)           # raises PyReturn on the found path, falls through otherwise
+        return True
 
     def _merge_loop(self, it: Interp, node: ast.For, env: Env) -> bool:
         """`for k, v in S.items(): D.setdefault(k, v)` and `for k, v in S.items(): D[k] = v` with D, S dicts:
